@@ -90,6 +90,30 @@ theorem sentinel_absent_in_output_old (o : Opts) (hp : o.pretty = true) (sql : S
   rw [hf]
   exact noOcc_replace_self '_' SENTINEL.tail sentinel_no_nl _ k
 
+/-- every generator method that does position-dependent string surgery on rendered text (found by ast, re-extracted every
+    run) is on the audited allow-list (finite table, decided completely) -/
+theorem generated_surgery_sites_audited :
+    ∀ s ∈ SqlglotModel.Generated.C07.surgerySites, s ∈ auditedSurgerySites := by decide +kernel
+
+/-- `_embed_ignore_nulls` as the source does it (render the call WITHOUT comments, drop its closing parenthesis, append
+    the modifier and `)`, then attach the comments): the modifier lands directly before the call's own closing
+    parenthesis and the comments follow the call — whatever characters the comment texts contain -/
+theorem embed_before_paren_comment_independent (o : Opts) (body text : Str) (cs : List Str) :
+    embedSlice o ⟨body, cs⟩ text = (body ++ ' ' :: text ++ [')']) ++ renderComments o cs := by
+  simp only [embedSlice, renderComments, List.dropLast_concat]
+  rw [maybeComment_append]
+
+example : embedSlice ⟨false, 2, 2, 80, false⟩ ⟨"ARRAY_AGG(x".toList, ["a) b".toList]⟩ "IGNORE NULLS".toList
+    = "ARRAY_AGG(x IGNORE NULLS) /* a) b */".toList := by decide +kernel
+
+/-- the variant that renders WITH comments and inserts before the LAST `)` of the text: a `)` inside the trailing comment
+    is taken for the call's closing parenthesis and the modifier moves into the comment -/
+theorem embed_rfind_counterexample :
+    embedRfind ⟨false, 2, 2, 80, false⟩ ⟨"ARRAY_AGG(x".toList, ["non-null values (sorted)".toList]⟩ "IGNORE NULLS".toList
+      = "ARRAY_AGG(x) /* non-null values (sorted IGNORE NULLS) */".toList ∧
+    embedSlice ⟨false, 2, 2, 80, false⟩ ⟨"ARRAY_AGG(x".toList, ["non-null values (sorted)".toList]⟩ "IGNORE NULLS".toList
+      = "ARRAY_AGG(x IGNORE NULLS) /* non-null values (sorted) */".toList := by decide +kernel
+
 /-- Doc view of the modelled printer (C01 `gen`): render every soft break `sp` as ANY whitespace string (space, or
     newline + indentation of any width, chosen per position): the text without whitespace is the same — pretty and
     plain renderings of a Doc differ only in whitespace, for unbounded pad / indent / width -/
